@@ -11,7 +11,7 @@ VARIABLE l
 Pattern(n) == [i \in 1..n |-> ((i - 1) * 131 + ((i - 1) \div 256)) % 256]
 Small(n) == [i \in 1..n |-> ((i - 1) * 131) % 256]
 Bytes(n) == IF n <= 64 THEN Small(n) ELSE Pattern(n)
-BodyProtItem == Bstr(<<161, 3, 0>>)
+BodyProtItem == Bstr(<<161, 3, 0>>)          \* the content of the body_protected argument (the generator spells its length prefix non-minimally)
 Exp(kind, o, j, ext, payload) ==
   CASE kind \in {"sign1", "sign1u"} -> Sig1Structure(LayerProtItem(o), ext, payload)
     [] kind = "sign" -> SigStructure(LayerProtItem(o), LayerProtItem(o.sigs[j]), ext, payload)
